@@ -367,3 +367,19 @@ class Statics:
   @classmethod
   def cmake(cls, x=None, y='d_y'):
     return record('Statics.cmake', {'x': x, 'y': y})
+
+
+class PairSub(Pair):
+  """Subclass of a namedtuple class (the usual way to add methods)."""
+  __slots__ = ()
+
+  def total(self):
+    return (self.first, self.second)
+
+
+_T = typing.TypeVar('_T')
+
+
+class GenericNT(typing.NamedTuple, typing.Generic[_T]):
+  item: _T
+  label: str = 'd_label'
